@@ -109,6 +109,7 @@ func newLexer(env *interp.ExecEnv, name string, r io.RuneScanner) *lexer {
 		name:    name,
 		r:       r,
 		token:   make(chan ast.Node),
+		done:    make(chan struct{}),
 		cancel:  make(chan struct{}),
 		heredoc: heredoc{c: make(chan struct{}, 1)},
 		line:    1,
@@ -732,7 +733,7 @@ func (l *lexer) scanHeredoc() bool {
 		}
 		return false
 	}
-	for h := l.heredoc.pop(); h != nil; h = l.heredoc.pop() {
+	for h := l.heredoc.pop(l.cancel); h != nil; h = l.heredoc.pop(l.cancel) {
 		l.mark(0)
 		// unquote
 		var word ast.Word
@@ -1516,16 +1517,16 @@ func (l *lexer) scanCmdSubst(r rune) bool {
 		verifPoint(ll, EvNestedParseExit)
 		<-ll.done
 		if ll.err != nil {
-			l.mu.Lock()
-			l.err = ll.err
-			if len(ll.stack) == 0 && r == '`' {
-				err := l.err.(Error)
-				l.err = Error{
-					Name: err.Name,
-					Pos:  err.Pos,
+			err := ll.err
+			if e, ok := err.(Error); ok && len(ll.stack) == 0 && r == '`' {
+				err = Error{
+					Name: e.Name,
+					Pos:  e.Pos,
 					Msg:  "syntax error: unexpected '`'",
 				}
 			}
+			l.mu.Lock()
+			l.setErr(err)
 			l.mu.Unlock()
 			break
 		}
@@ -1726,8 +1727,8 @@ func (l *lexer) read() (rune, error) {
 		switch {
 		case err == io.EOF:
 			l.eof = true
-		case l.err == nil:
-			l.err = err
+		default:
+			l.setErr(err)
 		}
 		l.mu.Unlock()
 	case r == '\n':
@@ -1767,17 +1768,46 @@ func (l *lexer) error(pos ast.Pos, msg string) {
 	if l.err != nil && strings.Contains(msg, ": unexpected EOF") {
 		return // lexing was interrupted
 	}
-	l.err = Error{
+	l.setErr(Error{
 		Name: l.name,
 		Pos:  pos,
 		Msg:  msg,
-	}
+	})
 
 	select {
 	case <-l.cancel:
 	default:
 		close(l.cancel)
 	}
+}
+
+// setErr records err unless an error which takes precedence over it has
+// already been recorded, so that the result does not depend on the order
+// in which the parser and the lexer report their errors: a read error
+// takes precedence over a syntax error, since the input is truncated,
+// and the syntax error which occurs first in the source takes precedence
+// over the others. l.mu must be held.
+func (l *lexer) setErr(err error) {
+	switch old := l.err.(type) {
+	case nil:
+		l.err = err
+	case Error:
+		if e, ok := err.(Error); !ok || e.Pos.Before(old.Pos) || e.Pos == old.Pos && e.Msg < old.Msg {
+			l.err = err
+		}
+	}
+}
+
+// wait stops the lexer and waits until it has finished.
+func (l *lexer) wait() {
+	l.mu.Lock()
+	select {
+	case <-l.cancel:
+	default:
+		close(l.cancel)
+	}
+	l.mu.Unlock()
+	<-l.done
 }
 
 type action func() action
@@ -1833,7 +1863,7 @@ func (h *heredoc) push(r *ast.Redir) {
 	}
 }
 
-func (h *heredoc) pop() *ast.Redir {
+func (h *heredoc) pop(cancel <-chan struct{}) *ast.Redir {
 	for atomic.LoadUint32(&h.n) != 0 {
 		h.mu.Lock()
 		if n := len(h.stack); n != 0 {
@@ -1847,7 +1877,12 @@ func (h *heredoc) pop() *ast.Redir {
 		h.mu.Unlock()
 		// wait
 		verifPointH(h, EvHdPopWait)
-		<-h.c
+		select {
+		case <-h.c:
+		case <-cancel:
+			// bailout
+			panic(errBailout)
+		}
 		verifPointH(h, EvHdPopWake)
 	}
 	return nil
